@@ -146,4 +146,22 @@ inductive PyResult (α : Type) where
   | plain (rf : Arr2 α)
   | pair (rf : Arr2 α) (os : Arr2 Int)
 
+/-- `pd.DataFrame(values, columns=[…])` (the index is pandas' default `RangeIndex`) -/
+structure Frame (β : Type) where
+  columns : List String
+  values : Arr2 β
+
+/-- what `cyclecount.rainflow` returns in its four option combinations -/
+inductive WrapResult (α : Type) where
+  | array (rf : Arr2 α)
+  | arrays (rf : Arr2 α) (os : Arr2 Int)
+  | frame (rf : Frame α)
+  | frames (rf : Frame α) (os : Frame Int)
+
+/-- the two implementation modules -/
+inductive Impl where
+  | c_rain
+  | py_rain
+deriving DecidableEq, Repr
+
 end PyYetiVerif.RainflowImp
